@@ -76,6 +76,13 @@ func checkC15(ctx *Ctx, r *Report, tier string) {
 		r.check("X4", shortFn(fn)+"|file-created-truncated", fn.Pos(), ok, "the tail of an older, longer file must not survive behind the closing tag: "+detail)
 	}
 	r.floor("X4", 1)
+	// X5: the file is written for every segment/triangle list, the empty one included (rule
+	// shared with C11 B7)
+	ruleSinkFinalises(ctx, r, "X5", func(gs goSite) bool {
+		file := ctx.Fset.Position(gs.instr.Pos()).Filename
+		return strings.HasSuffix(file, "/svg.go") || strings.HasSuffix(file, "/dxf.go") || strings.HasSuffix(file, "/3mf.go")
+	})
+	r.floor("X5", 3)
 }
 
 func elemPath(v Val) string {
